@@ -670,3 +670,228 @@ def tree_shape(top):
     for d in tree_dirs(top):
         out[d + "/"] = "dir"
     return out
+
+
+# --------------------------------------------------------------------------- restart after a kill (C02 / C09)
+
+def merged(a, b):
+    """union of two sample maps that agree where they overlap, without duplicates"""
+    import numpy as np
+    u = a.union(b)
+    if len(u) == 0:
+        return u
+    keep = np.concatenate([[True], u.g[1:] != u.g[:-1]])
+    return Samples(u.g[keep], u.v[keep])
+
+
+def stale_tmp_points(b):
+    """[(operation number i, tmp data file)]: a kill before operation i leaves that tmp.rf@X.h5 behind"""
+    states = model_states(b)
+    out = []
+    for i in range(1, b.n + 1):
+        tmps = sorted(p for p, (c, _t) in states[i - 1].items()
+                      if c in (2, 3, 4) and (enc_path(p) or [0])[0] == 2 and enc_path(p)[2] == 1)
+        if tmps:
+            out.append((i, tmps[0]))
+    return out
+
+
+def restart_spec(sp, tmp_rel, later):
+    """the recording of a restarted writer (same parameters): its first write starts in the file period of
+    the leftover tmp file; with [later] a second write goes into a free period after everything recorded"""
+    k = enc_path(tmp_rel)[3]
+    pieces = [p for c in parts_of(sp) for p in c if p["k"] == k]
+    g0 = pieces[0]["g0"]
+    writes = [[g0, max(1, min(pieces[0]["g1"] - g0, 20))]]
+    if later:
+        lastk = max(p["k"] for c in parts_of(sp) for p in c)
+        writes.append([next_file_start(sp, lastk + sp["file_cadence_ms"]), 30])
+    s2 = dict(sp)
+    s2.pop("apis", None)
+    s2["writes"] = writes
+    s2["name"] = sp["name"] + ("-restart-then-later-period" if later else "-restart")
+    return s2
+
+
+def restart_after_kill(res, sp, i, tmp_rel, later, concurrent, verbose=False):
+    """The recorder of [sp] is killed before its operation i (leaving tmp_rel); a NEW writer subprocess with the
+    same parameters is started on the same channel directory, its first write falling into the file period of the
+    leftover tmp file; it is closed (variant [later]: after one more write into a later, free period).
+    Oracles: every final-named data file is a whole file holding only written samples; the bytes of the files
+    finalized before the restart are unchanged; a fresh reader (and, with [concurrent], a reader opened before
+    the restart, both polled before every file-system operation of the restarted writer) never fails and returns
+    exactly the finalized samples; nothing readable disappears; lsdrf lists no tmp. file; an accepted write is
+    readable after close.  The model's prediction (Properties/C02.v, C02_restart_over_stale_tmp: every write of the
+    restarted session is refused, no final name changes, the stale file is removed by close) is compared too."""
+    import digital_rf
+    from digital_rf import list_drf
+    work = common.scratch_dir("restart-")
+    top = os.path.join(work, "top")
+    outc, rc, err = run_writer(sp, top, kill_at=i)
+    sp2 = restart_spec(sp, tmp_rel, later)
+    variant = "refused-write-then-later-period-then-close" if later else "refused-write-then-close"
+    inp = {"recording": sp["name"], "spec": sp, "kill_before_op": i, "stale_tmp": tmp_rel, "restart_spec": sp2,
+           "variant": variant, "concurrent_readers": bool(concurrent), "label": "restart-after-kill"}
+    if rc != 137 or not os.path.exists(os.path.join(top, tmp_rel)):
+        res.disagree("kill point does not leave the tmp data file the model predicts", inp, tmp_rel,
+                     {"rc": rc, "files": tree_files(top)})
+        return
+    allw = merged(written(sp), written(sp2))
+    files_before = tree_files(top)
+    digest_before = {f: h for f, h in tree_digest(top).items() if is_final_data(f)}
+    stale_final = dec_path([2, enc_path(tmp_rel)[1], 0, enc_path(tmp_rel)[3]])
+    fin_before = Samples()
+    for f in files_before:
+        if is_final_data(f):
+            try:
+                fin_before = fin_before.union(read_raw(os.path.join(top, f), sp))
+            except Exception:  # noqa  (reported by the crash-point oracle of C02)
+                pass
+    readers = {"fresh": None}
+    prev = {"fresh": fin_before}
+    if concurrent:
+        try:
+            readers["long-lived"], prev["long-lived"] = reader_pass(top, sp)
+        except Exception as e:  # noqa
+            res.violation("reader-fails-after-kill", "DigitalRFReader fails on the tree a kill leaves", inp,
+                          "the finalized samples", repr(e)[:200])
+            prev["long-lived"] = fin_before
+
+    def poll(stage):
+        inp2 = dict(inp, stage=stage)
+        finals, bad = Samples(), []
+        for f in tree_files(top):
+            if is_final_data(f):
+                try:
+                    finals = finals.union(read_raw(os.path.join(top, f), sp))
+                except Exception as e:  # noqa
+                    bad.append(f)
+                    stale = (f == stale_final and f not in files_before)
+                    res.violation("stale-tmp-published-by-restart" if stale else "final-data-file-unreadable",
+                                  ("the in-progress file a killed recorder left behind (%s) was renamed to its final name by "
+                                   "the restarted writer although nobody completed it" % tmp_rel) if stale else
+                                  "a data file under a final name is not a valid file after a restart", inp2,
+                                  "every final-named file is a whole file", {"file": f, "error": repr(e)[:200]})
+        if not finals.subset_of(allw) or finals.has_dup():
+            res.violation("final-data-file-foreign-samples", "after a restart a final data file holds samples that were not "
+                          "written", inp2, "subset of the written samples", finals.brief())
+        for kind in list(readers):
+            try:
+                r, seen = reader_pass(top, sp, reader=readers[kind])
+                if kind == "fresh":
+                    r.close()
+            except Exception as e:  # noqa
+                res.violation("reader-fails-after-restart", "a %s DigitalRFReader fails on the channel after a killed "
+                              "recorder was restarted%s" % (kind, " (an incomplete file is under a final name)" if bad else ""),
+                              inp2, "the finalized samples", repr(e)[:300])
+                if kind != "fresh":
+                    readers[kind] = None
+                continue
+            if not seen.subset_of(allw) or seen.has_dup():
+                res.violation("reader-sees-unwritten", "after a restart a %s reader returned a value that was not written at "
+                              "that index" % kind, inp2, "subset of written samples", seen.brief())
+            if not bad and not (seen == finals):
+                res.violation("reader-not-exactly-finalized", "after a restart a %s reader does not see exactly the finalized "
+                              "files" % kind, inp2, finals.brief(), seen.brief())
+            if not prev[kind].subset_of(seen):
+                res.violation("visibility-shrinks", "samples readable before the restart are no longer readable or changed "
+                              "(%s reader)" % kind, inp2, prev[kind].brief(), seen.brief())
+            prev[kind] = seen
+            res.count("restart_reader_passes")
+        return finals, bad
+
+    if concurrent:
+        fo, fi = os.path.join(work, "out.fifo"), os.path.join(work, "in.fifo")
+        os.mkfifo(fo)
+        os.mkfifo(fi)
+        proc = run_writer(sp2, top, step=(fo, fi), popen=True)
+        rd = open(fo, "r")
+        wr = open(fi, "w")
+        try:
+            while True:
+                ln = rd.readline()
+                if not ln:
+                    break
+                poll("before operation %d of the restarted writer" % int(ln))
+                wr.write("x")
+                wr.flush()
+        finally:
+            try:
+                wr.close()
+            except Exception:  # noqa
+                pass
+            rd.close()
+            out, err2 = proc.communicate(timeout=60)
+        outc2, rc2 = parse_outcomes(out), proc.returncode
+    else:
+        outc2, rc2, err2 = run_writer(sp2, top)
+    oc = {o["call"]: o for o in outc2}
+    if "end" not in oc or not oc.get("init", {}).get("ok"):
+        res.disagree("restarted writer did not run to its end", inp, "init ok ... end", {"rc": rc2, "outcomes": outc2,
+                                                                                       "stderr": err2[-300:]})
+    finals, bad = poll("after the restarted writer was closed")
+    wouts = [oc.get("write%d" % j, {}).get("ok") for j in range(len(sp2["writes"]))]
+    # finalized files: bytes unchanged
+    after = tree_digest(top)
+    changed = sorted(f for f, h in digest_before.items() if after.get(f) != h)
+    if changed:
+        res.violation("finalized-file-modified", "a data file finalized before the kill was modified or replaced by the "
+                      "restarted writer", inp, "bytes unchanged", changed)
+    # accepted => readable
+    import numpy as np
+    for j, ok in enumerate(wouts):
+        if ok:
+            g = np.arange(sp2["writes"][j][0], sp2["writes"][j][0] + sp2["writes"][j][1], dtype=np.int64)
+            if not Samples(g, vals(g, sp["dtype"])).subset_of(prev["fresh"]):
+                res.violation("restart-accepted-write-not-readable", "a write the restarted writer accepted is not readable "
+                              "after close", inp, "readable", {"write": sp2["writes"][j], "seen": prev["fresh"].brief()})
+    # listing
+    try:
+        listed = sorted(os.path.relpath(x, top) for x in list_drf.lsdrf(top, include_dmd=False))
+        want = sorted(f for f in tree_files(top) if not os.path.basename(f).startswith("tmp."))
+        if [x for x in listed if os.path.basename(x).startswith("tmp.")]:
+            res.violation("listing-shows-tmp", "lsdrf lists a tmp. file after a restart", inp, want, listed)
+        elif listed != want:
+            res.violation("listing-misses-final", "lsdrf does not list exactly the final-named files after a restart", inp,
+                          want, listed)
+    except Exception as e:  # noqa
+        res.violation("listing-fails-after-kill", "lsdrf raises on the tree after a restart", inp, "a listing", repr(e)[:200])
+    # the model's prediction for the code as it is (theorem C02_restart_over_stale_tmp)
+    files_after = tree_files(top)
+    predicted = sorted(f for f in files_before if f != tmp_rel)
+    if any(wouts) or files_after != predicted:
+        res.disagree("restart over a leftover tmp file: outcome differs from the model (every write refused, no final "
+                     "name appears or changes, the leftover file is removed by close)", inp,
+                     {"writes": [False] * len(wouts), "files": predicted}, {"writes": wouts, "files": files_after})
+    res.count("restart_sessions")
+    res.count("restart_" + variant)
+    res.case(("restart-after-kill", sp["name"], i, variant, bool(concurrent)), nontrivial=True)
+    if verbose:
+        print("recorder killed before its operation %d, leaving %s" % (i, tmp_rel))
+        print("restarted writer (%s): %s" % (variant, [(o["call"], o["ok"], o.get("exc", "")[:80]) for o in outc2]))
+        for f in files_after:
+            print("   %s %d%s" % (f, os.path.getsize(os.path.join(top, f)),
+                                  "   <-- NOT A VALID FILE" if f in bad else ""))
+    shutil.rmtree(work, True)
+
+
+def replay_restart(res, rp):
+    inp = rp["input"]
+    restart_after_kill(res, inp["spec"], inp["kill_before_op"], inp["stale_tmp"], "later" in inp["variant"],
+                       inp.get("concurrent_readers"), verbose=True)
+    for v in res.violations:
+        print("VIOLATED now: [%s] %s | observed: %s" % (v["signature"], v["title"], str(v["observed"])[:300]))
+    for d in res.broken:
+        print("differs from the model now:", str(d)[:400])
+    print("expected:", rp.get("expected"), "| observed then:", rp.get("observed"))
+    return 0
+
+
+def restart_points(res, b, n):
+    """n kill points inside data files: the first (just created), the last before a rename, random ones between"""
+    pts = stale_tmp_points(b)
+    if res.tier != "quick" or len(pts) <= n:
+        return pts
+    mid = pts[1:-1]
+    res.rng.shuffle(mid)
+    return sorted([pts[0], pts[-1]] + mid[:max(0, n - 2)])
